@@ -100,6 +100,11 @@ func runSolver(s solverSpec, file string, timeout int) (string, string) {
 	return "error", txt
 }
 
+var (
+	solverSem     chan struct{} // shared by all units: total number of concurrent solver processes
+	solverSemOnce sync.Once
+)
+
 type dischargeOpts struct {
 	dir      string
 	timeout  int
@@ -209,7 +214,8 @@ func (g *gen) discharge(base string, opt dischargeOpts) []result {
 		g.replay.queryTerms() // computed once, before the workers start
 	}
 	var wg sync.WaitGroup
-	sem := make(chan struct{}, opt.parallel)
+	solverSemOnce.Do(func() { solverSem = make(chan struct{}, opt.parallel) })
+	sem := solverSem
 	os.MkdirAll(opt.dir, 0o755)
 	for k := range g.obls {
 		wg.Add(1)
